@@ -36,6 +36,9 @@ PROPS = {
     "C11": dict(palettes=[("PalRef", 0)],
                 negatives=[("RefRelease", "execReturn", "PalRef", 0)],
                 invs=["C11_RefOnce"]),
+    # C12, engine side: whatever a script does (failing balance lookups, overdrafts, refused programs), the request
+    # ends and leaves no lock, reservation or unanswered request behind (NothingLeftBehind is judged for every property)
+    "C12": dict(palettes=[("PalFunds", 0)], negatives=[], invs=[]),
     "C14": dict(palettes=[("PalDry", 0), ("PalDry2", 0)],
                 negatives=[("DryRunAllocates", True, "PalDry", 0), ("DryRunPublishes", True, "PalDry", 0)],
                 invs=["C14_DryRun", "C14_NoIdConsumed", "C06_AckPersisted"]),
